@@ -402,8 +402,15 @@ fn gen_rate(rng: &mut Rng) -> f64 {
     match rng.below(12) {
         0 | 1 => *rng.pick(&[0.5, 0.75, 1.0, 1.25, 1.5, 2.0]),
         2 | 3 => *rng.pick(&[0.5075, 0.8, 1.1, 1.3, 1.7, 0.99]),
-        // the documented range is [0.01, 100]
-        4 => *rng.pick(&[0.01, 0.05, 0.1, 0.25, 3.0, 10.0, 100.0]),
+        // the documented range is [0.01, 100] (under Miri a rate of 0.01 means 100x the strain
+        // sections to interpret, so the interpreter only sees the moderate ones)
+        4 => {
+            if cfg!(miri) {
+                *rng.pick(&[0.5, 0.75, 1.5, 2.0, 1.0, 1.25, 0.9])
+            } else {
+                *rng.pick(&[0.01, 0.05, 0.1, 0.25, 3.0, 10.0, 100.0])
+            }
+        }
         _ => (rng.frange(0.5, 2.0) * 100.0).round() / 100.0,
     }
 }
